@@ -6,6 +6,7 @@ CONSTANTS
   MaxCtx = 3
   MaxBi = 12
   MaxVars = 2
+  Progs = {1, 2}
   GrowSteps = 1
   Texts <- AllTexts
   Outcomes <- OutcomesMC
